@@ -219,3 +219,97 @@ Proof.
   - f_equal. f_equal. lia.
   - apply ch_refl.
 Qed.
+
+(* ---- completeness of the executable specification (pigeonhole) --------- *)
+(* the alias entries met along the chain, at most n of them *)
+Fixpoint trace (ents : list entry) (n : nat) (t : str) : list entry :=
+  match n with
+  | O => []
+  | S k => match find_field t ents with
+           | Some T => match e_kind T with
+                       | EAlias t2 => T :: trace ents k t2
+                       | _ => []
+                       end
+           | None => []
+           end
+  end.
+
+Lemma follow_none_trace : forall ents n t, follow ents n t = None ->
+  (exists u, chain ents t u /\ find_field u ents = None) \/ length (trace ents n t) = n.
+Proof.
+  induction n; simpl; intros; auto.
+  destruct (find_field t ents) as [T|] eqn:F.
+  - destruct (e_kind T) eqn:K; try discriminate.
+    destruct (IHn _ H) as [(u & C & N)|L].
+    + left. exists u. split; auto. eapply ch_step; eauto.
+    + right. simpl. auto.
+  - left. exists t. split; auto. apply ch_refl.
+Qed.
+
+Lemma find_exact_in : forall c ents T, find_exact c ents = Some T -> In T ents.
+Proof.
+  induction ents; simpl; intros; try discriminate.
+  destruct (str_eqb c (e_name a)). inversion H; auto. right; auto.
+Qed.
+
+Lemma trace_incl : forall ents n t, List.incl (trace ents n t) ents.
+Proof.
+  induction n; simpl; intros. apply incl_nil_l.
+  destruct (find_field t ents) as [T|] eqn:F; try apply incl_nil_l.
+  destruct (e_kind T); try apply incl_nil_l.
+  apply incl_cons. eapply find_exact_in; eauto. apply IHn.
+Qed.
+
+Lemma trace_in_chain : forall ents n t T, In T (trace ents n t) ->
+  exists u, chain ents t u /\ find_field u ents = Some T.
+Proof.
+  induction n; simpl; intros; try contradiction.
+  destruct (find_field t ents) as [T0|] eqn:F; try contradiction.
+  destruct (e_kind T0) eqn:K; try contradiction.
+  destruct H as [H|H].
+  - subst. exists t. split; auto. apply ch_refl.
+  - destruct (IHn _ _ H) as (u & C & Fu). exists u. split; auto. eapply ch_step; eauto.
+Qed.
+
+Lemma ekind_eq_dec : forall a b : ekind, {a = b} + {a <> b}.
+Proof. repeat decide equality. Qed.
+Lemma entry_eq_dec : forall a b : entry, {a = b} + {a <> b}.
+Proof. decide equality; try apply ekind_eq_dec; repeat decide equality. Qed.
+
+Lemma trace_dup_loop : forall ents n t, ~ NoDup (trace ents n t) ->
+  exists u T t2, chain ents t u /\ find_field u ents = Some T /\ e_kind T = EAlias t2 /\ chain ents t2 u.
+Proof.
+  induction n; simpl; intros t H.
+  - exfalso. apply H. constructor.
+  - destruct (find_field t ents) as [T|] eqn:F; [| exfalso; apply H; constructor].
+    destruct (e_kind T) eqn:K; try (exfalso; apply H; constructor; fail).
+    destruct (in_dec entry_eq_dec T (trace ents n target)) as [I|NI].
+    + destruct (trace_in_chain _ _ _ _ I) as (u & C & Fu).
+      exists u, T, target. repeat split; auto. eapply ch_step; eauto.
+    + assert (HN : ~ NoDup (trace ents n target)). { intro. apply H. constructor; auto. }
+      destruct (IHn _ HN) as (u & T' & t2 & C & Fu & K' & C2).
+      exists u, T', t2. repeat split; auto. eapply ch_step; eauto.
+Qed.
+
+(* alias_spec answers "dangling" only for a chain that reaches a missing name or loops *)
+Theorem alias_spec_none_dangling : forall ents t, alias_spec ents t = None -> dangling ents t.
+Proof.
+  unfold alias_spec. intros ents t H.
+  destruct (follow_none_trace _ _ _ H) as [M|L].
+  - left. auto.
+  - right. apply trace_dup_loop with (n := S (length ents)).
+    intro ND. pose proof (NoDup_incl_length ND (trace_incl ents (S (length ents)) t)). lia.
+Qed.
+
+(* hence: _GD_ResolveAlias (bounded) returns Some x iff x is the reflexive-transitive
+   target, and None iff the alias is dangling in the Standards' sense *)
+Theorem resolve_impl_relational : forall ents B t0,
+  find_exact (e_name B) ents = Some B -> e_kind B = EAlias t0 ->
+  exists r, resolve_impl true ents (e_name B) t0 = ADone r /\
+            match r with Some x => resolves_to ents t0 x | None => dangling ents t0 end.
+Proof.
+  intros. exists (alias_spec ents t0). split. apply resolve_impl_is_alias_spec; auto.
+  destruct (alias_spec ents t0) eqn:E.
+  - eapply follow_sound; eauto.
+  - apply alias_spec_none_dangling; auto.
+Qed.
